@@ -507,6 +507,26 @@ def method_call(eng, recv, recv_node, name, node, st):
                 eng.oblige(st, "noexc", recv.dom[kz], "KeyError-remove")
             eng.assign(recv_node, VSet(recv.key, z3.Store(recv.dom, kz, False)), st, True)
             return NONE
+    if isinstance(recv, VSet) and name in ("isdisjoint", "issubset", "issuperset", "union", "intersection", "difference") and len(args) == 1:
+        other = args[0]
+        if isinstance(other, VList):
+            kk = z3.Const(fresh_name("k"), other.elem.z3sort())
+            ii = z3.Int(fresh_name("i"))
+            other = VSet(other.elem, z3.Lambda([kk], z3.Exists([ii], z3.And(ii >= 0, ii < other.len, other.arr[ii] == kk))))
+        if isinstance(other, VSet):
+            k = z3.Const(fresh_name("k"), recv.key.z3sort())
+            if name == "isdisjoint":
+                return z3.Not(z3.Exists([k], z3.And(recv.dom[k], other.dom[k])))
+            if name == "issubset":
+                return z3.ForAll([k], z3.Implies(recv.dom[k], other.dom[k]))
+            if name == "issuperset":
+                return z3.ForAll([k], z3.Implies(other.dom[k], recv.dom[k]))
+            if name == "union":
+                return VSet(recv.key, z3.Lambda([k], z3.Or(recv.dom[k], other.dom[k])))
+            if name == "intersection":
+                return VSet(recv.key, z3.Lambda([k], z3.And(recv.dom[k], other.dom[k])))
+            if name == "difference":
+                return VSet(recv.key, z3.Lambda([k], z3.And(recv.dom[k], z3.Not(other.dom[k]))))
     if recv == ("emptyset",) and name == "add":
         v = args[0]
         s = sort_of(v)
